@@ -317,12 +317,16 @@ SPECS.append(dict(name="parse_frames", group="Frames", file="tlexport/quic/quic_
                   params=[("payload", "Bytes")], ret="List FrameObj",
                   consts={"frame_type": ("frame_type", f"Table List Nat; {CLS}")},
                   locals={"key": "Int|List Nat", "frames": "List FrameObj"},
-                  fuel={"while len(payload) != 0": "len(payload)"},
+                  fuel={"while ": "len(payload)"},
                   class_call=dict(type=f"Option {CLS}", lean="construct", args=["Bytes", None], ret="FrameObj"),
                   calls={"GenericFrame": dict(lean=f"construct {CLS}.GenericFrame", args=["Bytes", None], ret="FrameObj", raises=True)},
                   attr_funcs={("FrameObj", "length"): ("FrameObj.length", "Nat")}))
 
 THEOREMS = _uniq(theorem_of(s) for s in SPECS)
+
+
+# a group whose definitions call another group's: it cannot be proved when that one is broken
+GROUP_DEPS = {"Frames": ["Varint"]}
 
 
 def group_modules(groups):
@@ -519,6 +523,27 @@ def _exc(e):
             KeyError: "key"}.get(type(e))
 
 
+def _frame(f):
+    """a frame object of the real code as a `Gen.Py.FrameObj` term"""
+    cls = type(f).__name__
+    if cls in NO_ATTR_CLASSES:
+        return f"Gen.Py.FrameObj.{cls}"
+    attrs = dict(FRAME_CLASSES)[cls]
+
+    def val(v, t):
+        if t.startswith("Option "):
+            return "none" if v is None else f"(some {val(v, t[7:])})"
+        if t == "Bool":
+            return _bool(v)
+        if t == "Bytes":
+            return _b(v)
+        if t.startswith("List "):
+            return "[" + ", ".join("(" + ", ".join(str(x) for x in e) + ")" for e in v) + "]"
+        return f"({v} : {t})"
+    fields = ", ".join(f"{a} := {val(getattr(f, a.rstrip('_'), None), t)}" for a, t in attrs)
+    return f"(Gen.Py.FrameObj.{cls} {{ {fields} }})"
+
+
 def _cases(rng, n):
     """(lean name, lean arguments, expected lean term) from running the REAL Python functions of the tree under test"""
     import importlib
@@ -625,6 +650,14 @@ def _cases(rng, n):
         out.append(("session_handle_packet", f"{seg} {pk2.seq} {_b(pk2.ip_src)} {pk2.sport} {_b(me.server_ip)} {me.server_port} {seen_s} {seen_c} []",
                     f"{{ seen_packets_server := {me.seen_packets_server}, seen_packets_client := {me.seen_packets_client}, "
                     f"packet_buffer := [{seg if me.packet_buffer else ''}] }}"))
+        # parse_frames: every class constructor through the dispatch; payloads that start with a known type byte, then noise
+        qf = importlib.import_module("tlexport.quic.quic_frame")
+        known = [b for key in qf.frame_type for b in key]
+        pay = b"".join(bytes([rng.choice(known + [0x40, 0x21])]) + bytes(rng.choice([0, 0, 1, 2, 3, 0x40, 0x80, 0xc0, rng.randrange(256)])
+                                                                           for _ in range(rng.randint(0, 6)))
+                       for _ in range(rng.randint(0, 3)))
+        k, v = call(qf.parse_frames, pay, None)
+        out.append(("parse_frames", _b(pay), (".ok [" + ", ".join(_frame(f) for f in v) + "]") if k == "ok" else f".error .{v}"))
         # handle_alert / handle_tls_client_hello
         ver = rng.choice([None] + list(vers))
         me = NS(tls_version=ver, can_decrypt=rng.random() < 0.5, client_hello_seen=rng.random() < 0.5)
@@ -668,8 +701,10 @@ OUTSIDE = [
     ("def f(x):\n    return g(x)\n", [("x", "Int")], "Int"),
     ("def f(x):\n    return x.y\n", [("x", "Int")], "Int"),
     ("def f(x):\n    return x[::2]\n", [("x", "Bytes")], "Bytes"),
-    ("def f(x):\n    for i in x:\n        pass\n    return 0\n", [("x", "Bytes")], "Int"),
-    ("def f(x):\n    for i in range(3):\n        if i == x:\n            return 1\n    return 0\n", [("x", "Int")], "Int"),
+    ("def f(x):\n    for i in x:\n        pass\n    return 0\n", [("x", "Int")], "Int"),
+    ("def f(x):\n    k = 255\n    for t in x:\n        k = t\n    return 0\n", [("x", "List Bytes")], "Int"),
+    ("def f(x):\n    for i in range(3):\n        if i == x:\n            break\n    return 0\n", [("x", "Int")], "Int"),
+    ("def f(x):\n    y = bytearray(x)\n    z = y\n    z.extend(x)\n    return y\n", [("x", "Bytes")], "Bytes"),
     ("def f(x):\n    return x == b'a'\n", [("x", "Int")], "Bool"),
     ("def f(x):\n    if x > 0:\n        return 1\n", [("x", "Int")], "Int"),
     ("def f(x):\n    try:\n        return 1\n    except Exception:\n        return 2\n", [("x", "Int")], "Int"),
